@@ -1777,6 +1777,15 @@ func (ex *Exec) binop(op token.Token, a, b Value, opType, resType types.Type) Va
 			if x.Conc != nil && y.Conc != nil {
 				return concStr(*x.Conc + *y.Conc)
 			}
+			// mixed kinds: when the left part has a fixed length the concatenation determines both parts, so it is
+			// modelled as an injective function of them
+			if x.Conc != nil || x.Bytes != nil || x.IsHexOf || (x.Atom != nil && x.N > 0) {
+				var flat []Term
+				if ex.flattenStr(x, &flat) && ex.flattenStr(y, &flat) {
+					t := ex.injectiveAtom("concat", flat)
+					return VStr{Atom: &t}
+				}
+			}
 		case token.LSS:
 			if x.Atom != nil && y.Atom != nil {
 				return VBool{Lt(*x.Atom, *y.Atom)}
@@ -1816,6 +1825,29 @@ func (ex *Exec) binop(op token.Token, a, b Value, opType, resType types.Type) Va
 		}
 	}
 	panic(unsupported{fmt.Sprintf("binop %s on %T", op, a)})
+}
+
+// flattenStr: Int terms determining a string value (kind tag first, so that different kinds never collide).
+func (ex *Exec) flattenStr(x VStr, out *[]Term) bool {
+	switch {
+	case x.Atom != nil:
+		tag := int64(-7)
+		if x.HexNum {
+			tag = -8
+		}
+		*out = append(*out, IntC(tag), *x.Atom)
+	case x.IsHexOf:
+		*out = append(*out, IntC(-6), IntC(int64(len(x.HexOf))))
+		*out = append(*out, x.HexOf...)
+	default:
+		ts, ok := ex.byteTerms(x)
+		if !ok {
+			return false
+		}
+		*out = append(*out, IntC(-5), IntC(int64(len(ts))))
+		*out = append(*out, ts...)
+	}
+	return true
 }
 
 func (ex *Exec) strEq(x, y VStr) Term {
